@@ -46,22 +46,13 @@ TARGETS = [
     ("ia32", "elf", "intel", False),
 ]
 RW_SITES = [1, 2, 3, 5]
-FINDINGS_DIR = os.path.join(tlc.VERIF, "findings")
 
 
 def load_known(prop: str) -> Dict[str, dict]:
-    """Open known findings of this property: the shared file plus the entries
-    proposed by this group (findings/<id>/entry.json)."""
-    known = {k["id"]: k for k in core.load_known()}
-    if os.path.isdir(FINDINGS_DIR):
-        for d in sorted(os.listdir(FINDINGS_DIR)):
-            p = os.path.join(FINDINGS_DIR, d, "entry.json")
-            if d.startswith(("KF-C12", "KF-C13")) and os.path.exists(p):
-                with open(p) as f:
-                    e = json.load(f)
-                known.setdefault(e["id"], e)
-    return {i: k for i, k in known.items()
-            if k.get("status") == "open" and prop in (k.get("property"), *k.get("properties", []))}
+    """OPEN known findings of this property (known_findings.json only; a
+    fixed entry suppresses nothing)."""
+    return {k["id"]: k for k in core.load_known()
+            if k.get("status") == "open" and prop in k.get("properties", [k["property"]])}
 
 
 def _reservoir(res: List[str], seen: int, line: str, n: int, rng: random.Random) -> None:
@@ -228,22 +219,3 @@ def judge(rep: Report, prop: str, verdicts: List[dict], case_by_id: Dict[str, di
     if drift:
         rep.notes.append("model drift (Level B model differs from the observed result; not a verdict): "
                          + json.dumps(drift))
-    # KNOWN-FINDING lines need the `what` of entries that are not yet in the shared file
-    _patch_known_lookup(known)
-
-
-def _patch_known_lookup(known: Dict[str, dict]) -> None:
-    """Report.finish() looks ids up with core.load_known(); make the entries
-    proposed by this group (findings/<id>/entry.json) visible to it."""
-    base = core.load_known
-
-    def merged():
-        out = list(base())
-        have = {k["id"] for k in out}
-        out.extend(k for i, k in known.items() if i not in have)
-        return out
-
-    if getattr(core.load_known, "_asm_merged", False):
-        return
-    merged._asm_merged = True  # type: ignore[attr-defined]
-    core.load_known = merged
